@@ -24,6 +24,9 @@ func c15(c *Ctx) {
 		if lone {
 			nfg, nbg = 1, 1
 		}
+		if s%4 == 1 { // many handlers in each set: whatever the dispatcher does between starting one handler and the next has time to go wrong
+			nfg, nbg = 16, 16
+		}
 		c.Journal(fmt.Sprintf("C15 session %d: %d fg + %d bg scribbling handlers receiving tagged and untagged PRIVMSG lines", s, nfg, nbg))
 		total := nfg + nbg
 		var mu sync.Mutex
